@@ -6,8 +6,10 @@ import (
 	"time"
 
 	"github.com/hydraide/hydraide/app/core/hydra/swamp/chronicler"
+	v2 "github.com/hydraide/hydraide/app/core/hydra/swamp/chronicler/v2"
 	"github.com/hydraide/hydraide/app/core/hydra/swamp/metadata"
 	"github.com/hydraide/hydraide/app/core/hydra/swamp/treasure"
+	"github.com/hydraide/hydraide/app/core/hydra/swamp/treasure/msgpackpatch"
 	"github.com/hydraide/hydraide/app/name"
 	"github.com/hydraide/hydraide/app/verifrt"
 )
@@ -546,4 +548,185 @@ func VerifC10Race(h *verifrt.H) {
 		}
 	})
 	h.AtQuiescence(func() { h.Cover("end") })
+}
+
+// ---------- C29 at swamp level: the stored name survives crash recovery ----------
+
+// VerifC29Recovered: a persistent swamp writes its first records; the process dies at ANY point
+// of the file operations so far (file created but no block on disk yet, torn first block, ...);
+// after the restart the swamp is summoned from what is on disk, written again and closed. The
+// fast name lookup on the resulting file must return the swamp's name, and the records written
+// after the restart must be there.
+func VerifC29Recovered(h *verifrt.H) {
+	h.BackgroundLowPriority(true)
+	dir := h.TempDir() + "/sw"
+	s := vfPersist(h, dir, time.Second, nil)
+	vfPut(s, "a", nil)
+	if h.Choose("flushBeforeCrash", 2) == 1 {
+		s.WriteTreasuresToFilesystem()
+	}
+	if h.Choose("secondRecord", 2) == 1 {
+		vfPut(s, "b", nil)
+		s.WriteTreasuresToFilesystem()
+	}
+	files := h.ListFiles(h.TempDir())
+	if len(files) == 0 {
+		h.Cover("end")
+		return // nothing reached the file system yet
+	}
+	path := files[0]
+	h.CrashImageAnywhere(path)
+	r := vfPersist(h, dir, time.Second, nil)
+	vfPut(r, "z", nil)
+	r.Close()
+	files = h.ListFiles(h.TempDir())
+	h.Assert(len(files) == 1, "one-storage-file")
+	if len(files) != 1 {
+		return
+	}
+	got, err := v2.ReadSwampName(files[0])
+	h.Assert(err == nil && got == "s/r/w", "name-lookup-after-recovery")
+	r2 := vfPersist(h, dir, time.Second, nil)
+	h.Assert(r2.TreasureExists("z"), "write-after-recovery-present")
+	r2.Close()
+	h.Cover("end")
+}
+
+// ---------- C11 / C12 (swamp level) ----------
+
+const c11Past, c11Future = int64(1000), int64(3_900_000_000_000_000_000)
+
+func c11put(s Swamp, key string, body byte, expiry int64) {
+	t := s.CreateTreasure(key)
+	g := t.StartTreasureGuard(true)
+	t.SetContentByteArray(g, []byte{0xC7, 0x00, 0x81, 0xa1, 's', 0xa1, body}) // {"s": "<body>"}
+	if expiry != 0 {
+		t.SetExpirationTime(g, time.Unix(0, expiry).UTC())
+	}
+	t.Save(g)
+	t.ReleaseTreasureGuard(g)
+}
+
+// VerifC11Claims: claimers of expired records run concurrently with each other or with a
+// writer on an in-memory swamp holding records a and b (each expired or not, by choice):
+//
+//	0: two shift-expired claimers with symbolic HowMany: disjoint results, at most HowMany each,
+//	   only expired records, every expired record claimed at most once;
+//	1: a shift-expired claimer vs a writer renewing a's TTL into the future: a claimed a carries
+//	   the expired TTL it was claimed with, never the renewed one;
+//	2: an expired-patch claimer vs a delete of a: once the delete has succeeded a is never
+//	   handed out again and is in no index.
+func VerifC11Claims(h *verifrt.H) {
+	h.BackgroundLowPriority(true)
+	s := vfMem(h, nil)
+	expA, expB := c11Past, c11Past+1
+	if h.Choose("bExpired", 2) == 0 {
+		expB = c11Future
+	}
+	c11put(s, "a", 'p', expA)
+	c11put(s, "b", 'p', expB)
+	if h.Choose("indexBuiltBefore", 2) == 1 {
+		s.GetTreasuresByBeacon(BeaconTypeExpirationTime, IndexOrderAsc, 0, 0, nil, nil)
+	}
+	scenario := h.Choose("scenario", h.Param("scenarios", 3))
+	var got1, got2 []treasure.Treasure
+	var patched []PatchExpiredEntry
+	deleted := false
+	switch scenario {
+	case 0:
+		n1, n2 := h.IntRange("howMany1", 1, 2), h.IntRange("howMany2", 1, 2)
+		h.Go("claimer1", func() {
+			s.BeginVigil()
+			defer s.CeaseVigil()
+			got1, _ = s.CloneAndDeleteExpiredTreasures(int32(n1))
+			h.Assert(len(got1) <= n1, "claim-at-most-how-many")
+		})
+		h.Go("claimer2", func() {
+			s.BeginVigil()
+			defer s.CeaseVigil()
+			got2, _ = s.CloneAndDeleteExpiredTreasures(int32(n2))
+			h.Assert(len(got2) <= n2, "claim-at-most-how-many")
+		})
+	case 1:
+		h.Go("claimer1", func() {
+			s.BeginVigil()
+			defer s.CeaseVigil()
+			got1, _ = s.CloneAndDeleteExpiredTreasures(1)
+		})
+		h.Go("renewer", func() {
+			s.BeginVigil()
+			defer s.CeaseVigil()
+			t, err := s.GetTreasure("a")
+			if err != nil {
+				return
+			}
+			g := t.StartTreasureGuard(true)
+			t.SetExpirationTime(g, time.Unix(0, c11Future).UTC())
+			t.Save(g)
+			t.ReleaseTreasureGuard(g)
+		})
+	case 2:
+		h.Go("patcher", func() {
+			s.BeginVigil()
+			defer s.CeaseVigil()
+			patched, _, _ = s.PatchExpired(2, nil, nil, &PatchFieldsMeta{SetUpdatedAt: true}, nil, nil, 0)
+		})
+		h.Go("deleter", func() {
+			s.BeginVigil()
+			defer s.CeaseVigil()
+			deleted = s.DeleteTreasure("a", false) == nil
+		})
+	}
+	h.AtQuiescence(func() {
+		seen := map[string]int{}
+		for _, t := range append(append([]treasure.Treasure{}, got1...), got2...) {
+			seen[t.GetKey()]++
+			e := t.GetExpirationTime()
+			h.Assert(e != 0 && e < c11Future, "claimed-record-was-expired-when-claimed")
+		}
+		for _, c := range seen {
+			h.Assert(c == 1, "record-claimed-at-most-once")
+		}
+		if scenario == 0 {
+			h.Assert(seen["b"] == 0 || expB != c11Future, "unexpired-record-not-claimed")
+		}
+		if scenario == 2 && deleted {
+			h.Assert(!s.TreasureExists("a"), "deleted-record-not-resurrected")
+			if !s.IsClosing() {
+				again, _ := s.CloneAndDeleteExpiredTreasures(5)
+				for _, t := range again {
+					h.Assert(t.GetKey() != "a", "deleted-record-not-handed-out-later")
+				}
+			}
+		}
+		_ = patched
+		h.Cover("end")
+	})
+}
+
+// VerifC12Cap: two cap-bearing expired-patch batches (cap: at most 1 record with s == "d") run
+// concurrently on a swamp with two expired records that do not match; each batch moves the
+// records it claims into the filter. At quiescence at most cap records match.
+func VerifC12Cap(h *verifrt.H) {
+	h.BackgroundLowPriority(true)
+	s := vfMem(h, nil)
+	c11put(s, "a", 'p', c11Past)
+	c11put(s, "b", 'p', c11Past+1)
+	matches := func(t treasure.Treasure) bool {
+		raw, err := t.GetContentByteArray()
+		return err == nil && len(raw) == 7 && raw[6] == 'd'
+	}
+	ops := []msgpackpatch.Op{{Kind: msgpackpatch.OpSet, Path: "s", Value: []byte{0xa1, 'd'}}}
+	for i := 0; i < 2; i++ {
+		h.Go("batch", func() {
+			s.BeginVigil()
+			defer s.CeaseVigil()
+			_, _, err := s.PatchExpired(2, ops, nil, &PatchFieldsMeta{SetExpiredAt: time.Unix(0, c11Future).UTC()}, nil, matches, 1)
+			h.Assert(err == nil, "cap-batch-ok")
+		})
+	}
+	h.AtQuiescence(func() {
+		h.Assert(int(s.CountMatchingTreasures(matches)) <= 1, "matches-never-exceed-cap")
+		h.Cover("end")
+	})
 }
